@@ -14,8 +14,15 @@ def forward_loops(body, tr, pattern):
             t = body.term(b)
             if t["k"] == "call" and is_callee(t, r"Iterator::next$|Iterator>::next$"):
                 s = canon(tr.operand(t["args"][0]))
-                m = re.match(r"^&IntoIterator::into_iter\(&?\*?\*?(.*)\)$", s) or re.match(r"^&slice::iter\(&\*Deref::deref\(&?\*?\*?(.*)\)\)$", s)
-                if m and re.search(pattern, m.group(1)) and not re.search(r"\b(rev|skip|take|filter|step_by|chain|zip|enumerate|map)\(", m.group(1)):
+                m = re.match(r"^&IntoIterator::into_iter\(&?\*?\*?(.*)\)$", s) or re.match(r"^&slice::iter(?:_mut)?\(&\*Deref(?:Mut)?::deref(?:_mut)?\(&?\*?\*?(.*)\)\)$", s) or \
+                    re.match(r"^&slice::iter(?:_mut)?\(&?\*?\*?(.*)\)$", s)
+                inner = m.group(1) if m else ""
+                while True:       # a Vec handed on as a slice: into_iter(&*Deref::deref(&*X)) iterates X
+                    m2 = re.match(r"^Deref(?:Mut)?::deref(?:_mut)?\(&?\*?\*?(.*)\)$", inner)
+                    if not m2:
+                        break
+                    inner = m2.group(1)
+                if m and re.search(pattern, inner) and not re.search(r"\b(rev|skip|take|filter|step_by|chain|zip|enumerate|map)\(", inner):
                     # the innermost loop containing this `next` is the loop it drives
                     if b not in best or len(bl) < len(best[b][1]):
                         best[b] = (h, bl, b)
